@@ -139,6 +139,28 @@ def corpus(name, mod=None):
             out += grow_valid(mod, out, 12)
         except Exception:
             pass
+    # numbers SHORTER than any documented one that the validator nevertheless accepts (payloads of 1..6 equal digits completed
+    # by the module's own generator where it is bound as "payload + one check character"): a missing length test shows in
+    # format(), split() and the getters of such numbers
+    if out and name not in ('vatin', 'eu.vat', 'gs1_128'):
+        try:
+            from props import api_common as _ac
+            shortest = min(len(''.join(ch for ch in x if ch.isalnum())) for x in out)
+            for key, row in _ac.generator_rows(name):
+                if row.get('conv') != 'last1':
+                    continue
+                f = getattr(mod, key.split('#')[0].split(':')[1], None)
+                for n in range(1, 7):
+                    for d in '159':
+                        try:
+                            cand = d * n + f(d * n)
+                            if len(cand) < shortest and mod.is_valid(cand) is True and cand not in out:
+                                out.append(cand)
+                                break
+                        except Exception:
+                            pass
+        except Exception:
+            pass
     # the country dispatchers have next to no numbers of their own: their corpus is derived from their constituents
     # (country code + documented valid numbers of every package that offers a `vat` module), as far as they accept them
     if name in ('vatin', 'eu.vat'):
